@@ -168,6 +168,9 @@ func (m *Engine) readCharacter(first byte) (char []byte, complete bool) {
 }
 
 func (m *Engine) dispatchKeys(binds map[string]inputrc.Bind) (bind inputrc.Bind, prefix bool, read, matched []byte) {
+	// The number of keys matched by the bind we fall back on, if any.
+	prefixedLen := 0
+
 	for {
 		// Read a single byte from the input buffer.
 		// This mimics the way Bash reads input when the inputrc option `byte-oriented` is set.
@@ -188,6 +191,16 @@ func (m *Engine) dispatchKeys(binds map[string]inputrc.Bind) (bind inputrc.Bind,
 			prefix = false
 			m.active = m.prefixed
 			m.prefixed = inputrc.Bind{}
+
+			// When falling back on a shorter bind, the keys read after
+			// it are not part of it: they must be dispatched on their own.
+			if prefixedLen > 0 && (m.active.Action != "" || m.active.Macro) {
+				core.PutBack(m.keys, read[prefixedLen:len(read)-1]...)
+				read = read[:prefixedLen]
+				matched = matched[:prefixedLen]
+
+				break
+			}
 
 			// FIX related to Github issue #73, where someone
 			// complains not being able to input Unicode characters
@@ -213,6 +226,7 @@ func (m *Engine) dispatchKeys(binds map[string]inputrc.Bind) (bind inputrc.Bind,
 
 			if match.Action != "" {
 				m.prefixed = match
+				prefixedLen = len(read)
 			}
 
 			continue
